@@ -490,6 +490,8 @@ def oracle_sequences(ck, tier):
     L = lambda **k: (lambda A, d: A.linbasex.linbasex_transform_full(sq, basis_dir=d, legendre_orders=k.get("orders", [0, 2]),
                                                                       proj_angles=k.get("angles", [0, np.pi / 2]), radial_step=k.get("step", 1), clip=k.get("clip", 0))[0])
 
+    yy_, xx_ = np.indices(sq.shape)
+    ringw = np.where(np.abs(np.hypot(yy_ - 10, xx_ - 10) - 5) < 1.5, 0.0, 1.0)          # a ring of radii without data
     shared_origin = [10, 10]            # an origin kept in one list object by the caller and moved in place between calls
 
     def R(**k):
@@ -499,7 +501,7 @@ def oracle_sequences(ck, tier):
                 k["origin"] = shared_origin
             r = A.rbasex.rbasex_transform(k.get("im", sq), origin=k.get("origin", "center"), rmax=k.get("rmax", "MIN"), order=k.get("order", 2),
                                           odd=k.get("odd", False), direction=k.get("direction", "inverse"), reg=k.get("reg", None),
-                                          out=k.get("out", "same"), basis_dir=d)
+                                          out=k.get("out", "same"), basis_dir=d, weights=k.get("weights"))
             return r[0], r[1].cos()
         return f
     sessions = {
@@ -510,7 +512,12 @@ def oracle_sequences(ck, tier):
         "abel.daun": [[D(degree=0), D(degree=1, direction="forward"), D(degree=1)],
                       [D(degree=2, n=25), D(degree=3, n=25, direction="forward"), D(degree=3, n=9), D(degree=2, n=9)],
                       [D(reg=("L2", 1.0)), D(reg=("diff", 1.0), degree=2), D(reg=("L2", 1.0), degree=2)],
-                      [D(dr=0.5), D(dr=0.5, direction="forward"), D(dr=2.0), D(dr=2.0, direction="forward")]],
+                      [D(dr=0.5), D(dr=0.5, direction="forward"), D(dr=2.0), D(dr=2.0, direction="forward")],
+                      # no regularisation right after a regularised call of the same size and degree (the cached inverse must be rebuilt),
+                      # and regularisers that differ only in their post-correction
+                      [D(degree=3, reg=("L2", 1.0)), D(degree=3), D(degree=3, reg=("diff", 2.0)), D(degree=3, reg=0)],
+                      [D(degree=2, reg=("diff", 2.0), n=9), D(degree=2, n=9), D(degree=0, reg=("L2", 1.0)), D(degree=0)],
+                      [D(reg=("L2", 2.0)), D(reg=("L2c", 2.0)), D(reg=("L2", 2.0)), D(reg=("L2c", 2.0), degree=3), D(reg=("L2", 2.0), degree=3)]],
         "abel.dasch": [[S("two_point", dr=0.5), S("two_point", dr=0.5), S("three_point", dr=0.5), S("two_point", n=9, dr=2.0)],
                        [S("onion_peeling", n=25), S("two_point", n=9), S("onion_peeling", n=9, one=True, dr=0.5), S("onion_peeling", n=9, dr=0.5)],
                        # one method's operator read back from its file between two requests for another method (a generated one)
@@ -528,7 +535,12 @@ def oracle_sequences(ck, tier):
                         [R(im=im, origin=(12, 20), out="full"), R(im=im, origin=(15, 18), out="full"), R(im=im, origin=(15, 18), rmax=12, out="same")],
                         [R(reg=("L2", 3.0)), R(reg=("diff", 1.0)), R(reg=None), R(reg=("L2", 3.0), order=4)],
                         [R(move_origin=[10, 10]), R(move_origin=[7, 12]), R(move_origin=[10, 10]), R(move_origin=[12, 9], out="full")],
-                        [R(origin=np.array([7, 10])), R(origin=np.array([7, 10])), R(origin=(7, 10)), R(origin=np.array([9.0, 11.0]))]],
+                        [R(origin=np.array([7, 10])), R(origin=np.array([7, 10])), R(origin=(7, 10)), R(origin=np.array([9.0, 11.0]))],
+                        # weights that leave whole rings without data (masked transform matrices), then the same requests without weights
+                        [R(weights=ringw, direction="forward"), R(direction="forward"), R()],
+                        [R(weights=ringw, reg=("L2", 5.0)), R(reg=("L2", 5.0)), R(), R(direction="forward")],
+                        [R(weights=ringw, reg="pos", order=2), R(reg="pos", order=2), R(order=2)],
+                        [R(weights=ringw, reg=("SVD", 0.2)), R(weights=ringw), R(reg=("diff", 1.0)), R()]],
     }
     scratch = os.environ.get("VERIF_SCRATCH")
     refs = {}
